@@ -151,7 +151,7 @@ class C03(Check):
             "wallet re-created from the same seed.  non-trivial = the history probed a private key of an address that was extended, created "
             "while locked and unlocked later, or reloaded after a restart, or issued an imported-account address, or was compared with a "
             "re-created wallet; distinct by input")
-    N_QUICK = 240
+    N_QUICK = 200
     N_THOROUGH = 4000
     SHARD = 40
     ASSUMPTIONS = [
@@ -181,6 +181,9 @@ class C03(Check):
         return dict(seed=c["in"]["seed"], ops=c["in"]["ops"][:12], n_ops=len(c["in"]["ops"]), tags=c.get("tags"),
                     oracle=c.get("oracle"), last_result=c["obs"][-1] if c["obs"] else None)
 
+    def site_of(self, case, kind):
+        return (case.get("sites") or {}).get(kind, case.get("site", "*"))
+
     def extend_priv(self):
         txt = open(os.path.join(COQ, "Generated", "AddrFacts.v")).read()
         m = re.search(r"Definition extend_derives_private_when_unlocked : bool := (true|false)\.", txt)
@@ -191,9 +194,11 @@ class C03(Check):
 Local Open Scope N_scope.
 Definition cases : list acase :=
 %s.
-Definition bad := Eval vm_compute in mismatches extend_derives_private_when_unlocked cases.
+Definition source := mkFacts extend_derives_private_when_unlocked new_scope_stores_last_account
+                              derive_cache_checks_account_key.
+Definition bad := Eval vm_compute in mismatches source cases.
 Print bad.
-Definition where_ := Eval vm_compute in diffs_from extend_derives_private_when_unlocked 0 cases.
+Definition where_ := Eval vm_compute in diffs_from source 0 cases.
 Print where_.
 """ % clist(["\n " + r_case(c) for c in cases])
 
